@@ -780,6 +780,10 @@ fn gen_dir(r: &mut Rng, plain: bool, prefix: &str, depth: usize, out: &mut Vec<E
             };
             out.push(Entry::Dir(path.clone(), mode));
             gen_dir(r, plain, &format!("{path}/"), depth + 1, out);
+        } else if roll >= 16 && !plain && used.len() > 1 && r.chance(1, 2) {
+            // a link to something generated before in the same directory (file, directory or link)
+            let target = used[r.below(used.len() - 1)];
+            out.push(Entry::Link(path, target.to_string()));
         } else if roll >= 17 && !plain {
             let target = match r.below(8) {
                 0 => "a",
@@ -804,6 +808,20 @@ fn gen_tree(r: &mut Rng) -> Vec<Entry> {
     let mut out = vec![];
     let plain = r.chance(11, 20);
     gen_dir(r, plain, "", 0, &mut out);
+    if r.chance(1, 10) {
+        // names for patterns with a slash between brackets (`a[b/c]d` is the path `a[b` / `c]d`)
+        let has = |out: &Vec<Entry>, n: &str| out.iter().any(|e| matches!(e, Entry::File(p) | Entry::Dir(p, _) | Entry::Link(p, _) if p == n));
+        for f in ["abd", "acd"] {
+            if !has(&out, f) {
+                out.push(Entry::File(f.to_string()));
+            }
+        }
+        if r.chance(1, 2) && !has(&out, "a[b") {
+            out.push(Entry::Dir("a[b".into(), 0o755));
+            out.push(Entry::File("a[b/c]d".into()));
+            out.push(Entry::File("a[b/*".into()));
+        }
+    }
     out
 }
 
@@ -814,7 +832,9 @@ const ATOMS: [&str; 30] = [
     "[*]", "[?]", "!", "[[:alpha:]]", "[[:wrong:]]", "a*", "[.", "??", "[]-]", "[!.]*",
 ];
 /// texts that only make sense through a variable or quotes (contain a backslash or a slash)
-const VAR_ATOMS: [&str; 12] = ["\\*", "\\", "\\?", "a\\", "\\[ab]", "[\\a]", "sub/*", "*/", "/", "*/a", "\\\\", "[a\\]b]"];
+const VAR_ATOMS: [&str; 18] = [
+    "\\*", "\\", "\\?", "a\\", "\\[ab]", "[\\a]", "sub/*", "*/", "/", "*/a", "\\\\", "[a\\]b]", "[b/c]", "a[b/c]d", "[/]", "*[/]*", "[!/]*", "a[b/*",
+];
 
 #[derive(Clone, Copy, PartialEq)]
 enum Style {
@@ -955,8 +975,8 @@ fn gen_guided(r: &mut Rng, tree: &[Entry]) -> Option<(String, Vec<(String, Strin
             _ => lit(&mut g, r, name),
         }
     }
-    if r.chance(1, 16) {
-        g.text.push('/');
+    if r.chance(1, 8) {
+        g.text.push_str(if r.chance(1, 4) { "//" } else { "/" });
     }
     Some((g.text, g.assigns))
 }
@@ -1022,7 +1042,7 @@ fn gen_word(r: &mut Rng, tree: &[Entry]) -> (String, Vec<(String, String)>) {
             }
         }
     }
-    if r.chance(1, 12) {
+    if r.chance(1, 8) {
         g.text.push('/');
     }
     (g.text, g.assigns)
